@@ -1,34 +1,44 @@
 (* C07 — impossible conversions fail only with ConversionNotFound, with or without -O.
    The model makes every Python exception the conversion code can raise an explicit error value
-   (Model/Convert.v: CNF, EKey, EIndex, EValue, EZero, EFuel).  Proved here: the path finder, the plan
-   inliner and every conversion with a direct path fail only with ConversionNotFound (or by exhausting
-   the recursion budget, which stands for RecursionError and is excluded by the differential run);
-   comparisons turn a failed conversion into False / TypeError.  The full statement for the planner's
-   bookkeeping (C07_only_cnf: no EKey/EIndex/EValue/EZero from _clean_pop/_clean_remove on any table)
-   is not yet proved; it is covered per run by the correspondence (the model's error class must equal
-   the implementation's on every case) and by the python / python -O differential. *)
+   (Model/Convert.v: CNF, EKey, EIndex, EValue, EZero, EFuel, EMissing).  C07_only_cnf: for every table
+   whose ratios are non-zero (what equate() can build) and every magnitude and pair of units, converting
+   either succeeds or fails with ConversionNotFound -- never KeyError (_clean_pop, _clean_remove,
+   _ratios[unit][alternative]), IndexError (pop from an empty list), ValueError (list.remove) or
+   ZeroDivisionError (1 / ratio, scale ** negative).  The two remaining error values are not Python
+   outcomes of a conversion: EFuel stands for RecursionError / a non-terminating loop (the budget the
+   differential run gives is never exhausted) and EMissing for an incomplete harness export.
+   Comparisons turn a failed conversion into False / TypeError. *)
 From stdpp Require Import gmap.
 From Coq Require Import ZArith QArith List.
 From Measured Require Import Model.FMap Model.Units Model.Quantity Model.Value Model.Convert Model.ConvCheck
-  Proofs.ConvertFacts Proofs.ConvertLaws Proofs.QuantityFacts.
+  Proofs.ConvertFacts Proofs.ConvertLaws Proofs.QuantityFacts Proofs.FDictFacts Proofs.PlannerErrors.
 Import ListNotations.
+
+(* the full statement *)
+Theorem C07_only_cnf : forall bd tbl offs ord, table_nzb tbl = true -> ord_nzb ord = true ->
+  forall fuel m s e er, convert bd tbl ord offs fuel m s e = CErr er -> er = CNF \/ er = EFuel \/ er = EMissing.
+Proof. exact convert_only_cnf. Qed.
+Print Assumptions C07_only_cnf.
+
+(* its parts: _match_factors never raises, _cancel_factors only exhausts its budget, _replace_factors
+   keeps the dictionaries well-formed, on dictionaries with unique keys and no empty lists *)
+Theorem C07_match_factors_never_raises : forall bd sf ef, good sf -> good ef ->
+  exists sf' ef' plan, match_factors bd sf ef = COk (sf', ef', plan) /\ good sf' /\ good ef'.
+Proof. exact match_factors_ok. Qed.
+Print Assumptions C07_match_factors_never_raises.
+
+Theorem C07_rough_plan_errors : forall bd tbl ord,
+  (forall u a x, tget tbl u a = Some x -> ~ (x == 0)%Q) ->
+  (forall k l, ordered ord k = Some l -> Forall (fun ae => snd ae <> 0%Z) l) ->
+  forall fuel sof eof e, Forall (fun ae => snd ae <> 0%Z) sof -> Forall (fun ae => snd ae <> 0%Z) eof ->
+  rough_plan bd tbl ord fuel sof eof = CErr e -> e = CNF \/ e = EFuel \/ e = EMissing.
+Proof. exact rough_plan_errors. Qed.
+Print Assumptions C07_rough_plan_errors.
 
 Theorem C07_find_path_errors : forall tbl offs fuel s e vis er,
   find_path tbl offs fuel s e vis = CErr er -> er = CNF \/ er = EFuel.
 Proof. exact find_path_errors. Qed.
 Print Assumptions C07_find_path_errors.
-
-Theorem C07_inline_paths_errors : forall tbl offs fuel rough er,
-  inline_paths tbl offs fuel rough = CErr er -> er = CNF \/ er = EFuel.
-Proof. exact inline_paths_errors. Qed.
-Print Assumptions C07_inline_paths_errors.
-
-Theorem C07_direct_only_cnf_partial : forall bd tbl ord offs fuel m s e d er,
-  plan_shape bd tbl ord offs fuel s e = COk (Direct d) ->
-  Forall (fun h => ~ (fst h == 0)%Q) d ->
-  convert bd tbl ord offs fuel m s e = CErr er -> er = CNF \/ er = EFuel.
-Proof. exact convert_direct_errors. Qed.
-Print Assumptions C07_direct_only_cnf_partial.
 
 (* comparisons: a conversion that cannot be carried out makes == False and ordering a TypeError,
    for every conversion oracle (in particular one that always fails) *)
@@ -42,10 +52,11 @@ Theorem C07_order_without_conversion : forall op a b, ufac (qu a) <> ufac (qu b)
 Proof. exact order_no_conversion. Qed.
 Print Assumptions C07_order_without_conversion.
 
-(* non-vacuity: two units of one dimension with no declared equivalence *)
+(* non-vacuity: two units of one dimension with no declared equivalence; and a planner run that fails *)
 Definition nv_bd : env := [(1%positive, {[ 1%positive := 1%Z ]}); (2%positive, {[ 1%positive := 1%Z ]})].
 Definition nv_a : unit3 := MkU pid {[ 1%positive := 1%Z ]} {[ 1%positive := 1%Z ]}.
 Definition nv_b : unit3 := MkU pid {[ 2%positive := 1%Z ]} {[ 1%positive := 1%Z ]}.
 Example C07_nonvacuous :
-  convert nv_bd [] [(nv_a, [(1%N, 1%Z)]); (nv_b, [(2%N, 1%Z)])] [] 20 3 nv_a nv_b = CErr CNF.
-Proof. vm_compute. reflexivity. Qed.
+  convert nv_bd [] [(nv_a, [(1%N, 1%Z)]); (nv_b, [(2%N, 1%Z)])] [] 20 3 nv_a nv_b = CErr CNF /\
+  table_nzb [] = true /\ ord_nzb [(nv_a, [(1%N, 1%Z)]); (nv_b, [(2%N, 1%Z)])] = true.
+Proof. repeat split; vm_compute; reflexivity. Qed.
